@@ -80,6 +80,18 @@ def generate(seed, tier):
     ncomb = {'quick': 3000, 'thorough': 20000, 'search': 3000}.get(tier, 3000)
     for i in range(ncomb):
         cases.append(combined_case(rnd))
+    # attempt-width: the attempt counter at the boundaries of narrower integer types (the model counts in Z; the
+    # declared width of check_attempt / max_check_attempts is a regenerated fact, C01_field_widths).  One long run of
+    # non-OK results per boundary, max_check_attempts just below / at / above it; the 2^16 boundary only where the
+    # population may be large (thorough tier, and the search after a broken proof or correspondence)
+    bounds = [127, 255] + ([32767, 65535] if tier in ('thorough', 'search') else [])
+    for b in bounds:
+        for k in ('svc', 'host'):
+            for m in ((b + 2,) if b > 1000 else (b, b + 1, b + 2)):
+                if b > 1000 and k == 'host' and tier == 'search':
+                    continue
+                h = (0,) + (2,) * (b + 3) + (0, 2, 2)
+                cases.append(mk(k, m, 0, 0, h, 'attempt-width', t_step=1))
     # short concurrent cases first: the runner shrinks/reports the first failing case of a class
     return concurrent_cases(rnd, tier) + cases
 
